@@ -28,7 +28,11 @@ import numpy as np
 
 import core
 
-RULE = ("rotation grids cube4D_N and randomQ_N for every N of the tier list (quick: 1..12, 17 and two seed-chosen N in 13..40, plus the large "
+RULE = ("every case draws (by seed) the representation of each argument it passes to the package - N as int / np.int64 / np.int32 / "
+        "np.uint16 / 0-d array, names as str / np.str_, dimensions as int / numpy integer, flags as bool / np.bool_ / 0-1 / absent, "
+        "factory / keyword / SphereGridFactory / class route, three public volume getters, C / F / non-contiguous arrays - "
+        "and quick sweeps all families exhaustively over randomQ_5, cube4D_8, randomQ_3 against the plain-Python call; "
+        "rotation grids cube4D_N and randomQ_N for every N of the tier list (quick: 1..12, 17 and two seed-chosen N in 13..40, plus the large "
         "grids randomQ_120 and one of randomQ_100/150 by seed with the statement oracle only - cells with fewer than dim+1 helper "
         "points occur only there; thorough: every N <= 60 and 80, 100, 120, 150, 272 with model tie and oracle), each a fresh factory object; direction grids ico/cube3D/randomS with N = 1..6; "
         "histories on ONE grid object (the array returned by the default / only_upper=True getter is overwritten in place - rows negated, "
@@ -137,6 +141,153 @@ class Rec:
                     print(f"NOTE: property={ctx.prop} {n}")
         ctx.driver.calls += self.calls
         ctx.driver.lines += self.lines
+
+
+# ------------------------------------------------------------------------------------------------------------------
+# argument representations: the same mathematical input in every form the public API accepts on the unchanged tree.
+# Established on the unchanged tree (probe of 2026-09-27, all bit-identical to the plain-Python call unless listed in
+# REPS_LEFT_OUT).  A case stores the NAMES of the representations it uses (case["rep"]); the model always takes the
+# denoted values.
+# ------------------------------------------------------------------------------------------------------------------
+N_REPS = {"int": int, "np.int64": np.int64, "np.int32": np.int32, "np.uint16": np.uint16, "0d_array": lambda n: np.array(n)}
+STR_REPS = {"str": str, "np.str_": np.str_}
+DIM_REPS = {"int": int, "np.int64": np.int64, "np.int32": np.int32}
+BOOL_REPS = {"bool": bool, "np.bool_": np.bool_, "int01": int}
+ROUTES4 = ("factory4", "factory4_kw", "factory_dims", "class")
+GETTERS = ("voronoi", "forwarded", "attribute")
+FLAG_REPS = ("absent",) + tuple(BOOL_REPS)
+ARRAY_REPS = ("C", "F", "noncontiguous")
+REPS_LEFT_OUT = [
+    {"argument": "N", "representation": "float / np.float64 (integer valued)", "reason": "rejected on the unchanged tree: TypeError "
+     "('float' object cannot be interpreted as an integer / slice indices must be integers)"},
+    {"argument": "MikroVoronoi(N_points) called directly", "representation": "0-d integer array", "reason": "genuinely differs on the "
+     "unchanged tree: [x] * np.array(N) is an array product, one value 4 pi (pi^2) comes back instead of N values; outside the "
+     "property's quantifier (through the factories N_points is len(grid), a Python int, and the 0-d array N gives the plain result)"},
+    {"argument": "MikroVoronoi(N_points = 0) called directly", "representation": "numpy integers", "reason": "genuinely differs on the "
+     "unchanged tree: numpy division by zero gives inf and an empty list instead of ZeroDivisionError (error branch, N = 0)"},
+    {"argument": "HalfRotobjVoronoi(my_array)", "representation": "list of lists", "reason": "rejected on the unchanged tree: "
+     "AttributeError ('list' object has no attribute 'shape')"},
+    {"argument": "HalfRotobjVoronoi(my_array)", "representation": "np.longdouble array", "reason": "accepted, volumes agree to 1e-9, but "
+     "scipy then computes the Voronoi vertices in extended precision: they differ in the last bits from the float64 computation, so "
+     "the exact comparison of intermediate arrays does not apply (not the same computation in another representation)"},
+    {"argument": "FullGrid wrappers", "representation": "-", "reason": "not an observation point of C15; FullGrid parses grid names and "
+     "always passes a Python int"},
+]
+PLAIN = {"N": "int", "alg": "str", "route": "factory4", "dims": "int", "time_generation": "absent", "getter": "voronoi",
+         "approx": "absent", "only_upper": "bool"}
+
+
+def draw_rep(rng):
+    return {"N": rng.choice(list(N_REPS)), "alg": rng.choice(list(STR_REPS)), "route": rng.choice(ROUTES4),
+            "dims": rng.choice(list(DIM_REPS)), "time_generation": rng.choice(FLAG_REPS), "getter": rng.choice(GETTERS),
+            "approx": rng.choice(FLAG_REPS), "only_upper": rng.choice(list(BOOL_REPS))}
+
+
+def rep_of(case):
+    return {**PLAIN, **(case.get("rep") or {})}
+
+
+def flag_kw(name, repname, value):
+    return {} if repname == "absent" else {name: BOOL_REPS[repname](value)}
+
+
+def make_grid4(alg, N, rep, timing=False):
+    """a fresh 4-D grid object through the public route and argument representations named in `rep`"""
+    from molgri.space import rotobj
+    a, n = STR_REPS[rep["alg"]](alg), N_REPS[rep["N"]](N)
+    tg = flag_kw("time_generation", rep["time_generation"], timing)
+    route = rep["route"]
+    if route == "factory4":
+        return rotobj.SphereGrid4DFactory.create(a, n, **tg)
+    if route == "factory4_kw":
+        return rotobj.SphereGrid4DFactory.create(alg_name=a, N=n, **tg)
+    if route == "factory_dims":
+        return rotobj.SphereGridFactory.create(a, n, DIM_REPS[rep["dims"]](4), **tg)
+    cls = {"randomQ": rotobj.RandomQRotations, "cube4D": rotobj.Cube4DRotations}[alg]
+    g = cls(N=n, **tg)
+    g.gen_grid()
+    return g
+
+
+def volumes_of(g, rep, approx_value=False):
+    """the volumes through the public getter named in `rep` (the factory product's Voronoi object, the grid's own forwarded
+    getter, or the public attribute)"""
+    kw = flag_kw("approx", rep["approx"], approx_value)
+    if rep["getter"] == "forwarded":
+        return g.get_voronoi_volumes(**kw)
+    if rep["getter"] == "attribute":
+        return g.spherical_voronoi.get_voronoi_volumes(**kw)
+    return g.get_spherical_voronoi().get_voronoi_volumes(**kw)
+
+
+def full_grid_of(g, rep):
+    return np.asarray(g.get_grid_as_array(only_upper=BOOL_REPS[rep["only_upper"]](False)), dtype=float)
+
+
+def array_rep(grid, name):
+    if name == "F":
+        return np.asfortranarray(grid)
+    if name == "noncontiguous":
+        return np.hstack([grid, grid])[:, :grid.shape[1]]
+    if name == "longdouble":
+        return grid.astype(np.longdouble)
+    return np.ascontiguousarray(grid)
+
+
+def sweep_variants():
+    """every family varied on its own (the others plain), plus both truth values of the flags"""
+    out = []
+    for k in N_REPS:
+        out.append(({"N": k}, False, False))
+    out.append(({"alg": "np.str_"}, False, False))
+    for r in ROUTES4:
+        out.append(({"route": r}, False, False))
+    for d in DIM_REPS:
+        out.append(({"route": "factory_dims", "dims": d}, False, False))
+    for g_ in GETTERS:
+        out.append(({"getter": g_}, False, False))
+    for b in BOOL_REPS:
+        for val in (False, True):
+            out.append(({"time_generation": b}, val, False))
+            out.append(({"approx": b}, False, val))
+            out.append(({"approx": b, "getter": "forwarded"}, False, val))
+        out.append(({"only_upper": b}, False, False))
+    out.append(({"N": "np.int64", "alg": "np.str_", "route": "factory_dims", "dims": "np.int64", "time_generation": "np.bool_",
+                 "getter": "forwarded", "approx": "np.bool_", "only_upper": "np.bool_"}, False, False))
+    return out
+
+
+def ev_repsweep(rec, case):
+    """exhaustive sweep of all representation families over one small fixed grid: class attached, number of volumes,
+    volumes and full grid must be those of the plain-Python call (the expected result does not depend on the representation)"""
+    alg, N = case["alg"], int(case["N"])
+    with core.quiet():
+        g0 = make_grid4(alg, N, PLAIN)
+        ref = np.asarray(volumes_of(g0, PLAIN), dtype=float)
+        refcls = type(g0.get_spherical_voronoi()).__name__
+        refgrid = full_grid_of(g0, PLAIN)
+    variants = sweep_variants() if case["kind"] == "repsweep" else [(case["rep"], case["timing"], case["approx_value"])]
+    for (delta, timing, approx) in variants:
+        rep = {**PLAIN, **delta}
+        tag = ",".join(f"{k}={v}" for k, v in sorted(delta.items())) + (",timing" if timing else "") + (",approx" if approx else "")
+        sub = {"kind": "repsweep1", "alg": alg, "N": N, "rep": delta, "timing": timing, "approx_value": approx}
+        rec.count += 1
+        try:
+            with core.quiet():
+                g = make_grid4(alg, N, rep, timing=timing)
+                v = np.asarray(volumes_of(g, rep, approx_value=approx), dtype=float)
+                cls = type(g.get_spherical_voronoi()).__name__
+                grid = full_grid_of(g, rep)
+        except Exception as e:
+            rec.fail.append((f"C15:representation:{alg}_{N}:{tag}:exception", f"{alg}_{N} with {tag} raised {core.errname(e)}: {e}; the plain call "
+                             "returns volumes", sub, "volumes", core.errname(e)))
+            continue
+        if cls != refcls or v.shape != ref.shape or not np.allclose(v, ref, rtol=1e-12, atol=0) or not np.array_equal(grid, refgrid):
+            rec.fail.append((f"C15:representation:{alg}_{N}:{tag}", f"{alg}_{N}: result depends on the representation of the arguments ({tag}): "
+                             f"{cls} / {len(v)} volumes against {refcls} / {len(ref)} for plain Python arguments", sub,
+                             {"class": refcls, "volumes": [float(x) for x in ref]}, {"class": cls, "volumes": [float(x) for x in v]}))
+        rec.nt.append(("repsweep", alg, N, tag))
+    rec.b("representation_sweep_variants", len(variants))
 
 
 # ------------------------------------------------------------------------------------------------------------------
@@ -272,15 +423,18 @@ def oracle_rotation(rec, case, label, N, grid, vols, banded):
 
 
 def ev_grid(rec, case):
-    from molgri.space.rotobj import SphereGrid4DFactory
     alg, N = case["alg"], int(case["N"])
     label = f"{alg}_{N}"
+    rep = rep_of(case)
+    for k_, v_ in rep.items():
+        if v_ != PLAIN[k_]:
+            rec.b(f"rep_{k_}={v_}")
     try:
         with core.quiet():
-            g = SphereGrid4DFactory.create(alg, N)
+            g = make_grid4(alg, N, rep)
             vor = g.get_spherical_voronoi()
-            vols = np.asarray(vor.get_voronoi_volumes(), dtype=float)
-            grid = np.asarray(g.get_grid_as_array(only_upper=False), dtype=float)
+            vols = np.asarray(volumes_of(g, rep), dtype=float)
+            grid = full_grid_of(g, rep)
     except Exception as e:
         rec.fail.append((f"C15:exception:{label}", f"volumes of {label} raised {core.errname(e)}: {e}", case, "volumes", core.errname(e)))
         return
@@ -341,10 +495,18 @@ def ev_randgrid(rec, case):
     N, seed = int(case["N"]), int(case["seed"])
     label = f"random_{N}_{seed}"
     grid = random_double_cover(N, seed)
+    rep = case.get("rep") or {}
     try:
         with core.quiet():
-            vor = HalfRotobjVoronoi(grid)
-            vols = np.asarray(vor.get_voronoi_volumes(), dtype=float)
+            arr = array_rep(grid, rep.get("array", "C"))
+            det = rep.get("detailed", "absent")
+            if rep.get("kw"):
+                vor = HalfRotobjVoronoi(my_array=arr, **flag_kw("using_detailed_grid", det, True))
+            else:
+                vor = HalfRotobjVoronoi(arr, *([] if det == "absent" else [BOOL_REPS[det](True)]))
+            vols = np.asarray(vor.get_voronoi_volumes(**flag_kw("approx", rep.get("approx", "absent"), False)), dtype=float)
+        for k_, v_ in rep.items():
+            rec.b(f"rep_randgrid_{k_}={v_}")
     except Exception as e:
         rec.corr.append(("HalfRotobjVoronoi on a random double cover raised", case, core.errname(e), "volumes"))
         return
@@ -366,22 +528,22 @@ def ev_history(rec, case):
     The default 4-D getter get_grid_as_array() (= only_upper=True) hands out a copy, so writing into what it returned must
     not change what the object reports: N volumes, those of a fresh object, and the first N of the 2N double-cover volumes
     of the grid the object itself reports.  (only_upper=False returns the stored array and is never written to.)"""
-    from molgri.space.rotobj import SphereGrid4DFactory
     from molgri.space.voronoi import RotobjVoronoi
     alg, N, order = case["alg"], int(case["N"]), case["order"]
     label = f"{alg}_{N}:{order}"
+    rep = rep_of(case)
     rng = np.random.default_rng([MC_SEED, int(case["seed"]), N])
     try:
         with core.quiet():
-            fresh = np.asarray(SphereGrid4DFactory.create(alg, N).get_spherical_voronoi().get_voronoi_volumes(), dtype=float)
-            g = SphereGrid4DFactory.create(alg, N)
+            fresh = np.asarray(volumes_of(make_grid4(alg, N, PLAIN), PLAIN), dtype=float)   # reference: plain Python arguments
+            g = make_grid4(alg, N, rep)
     except Exception as e:
         rec.fail.append((f"C15:exception:{alg}_{N}", f"volumes of a fresh {alg}_{N} raised {core.errname(e)}", case))
         return
 
     def overwrite(kind, which):
         with core.quiet():
-            a = g.get_grid_as_array() if which == "default" else g.get_grid_as_array(only_upper=True)
+            a = g.get_grid_as_array() if which == "default" else g.get_grid_as_array(only_upper=BOOL_REPS[rep["only_upper"]](True))
         if not a.flags.writeable or len(a) == 0:
             return
         if kind == "negate":
@@ -397,8 +559,8 @@ def ev_history(rec, case):
     def check(step):
         try:
             with core.quiet():
-                v = np.asarray(g.get_spherical_voronoi().get_voronoi_volumes(), dtype=float)
-                cur = np.array(g.get_grid_as_array(only_upper=False), dtype=float, copy=True)
+                v = np.asarray(volumes_of(g, rep), dtype=float)
+                cur = np.array(full_grid_of(g, rep), dtype=float, copy=True)
         except Exception as e:
             rec.fail.append((f"C15:history:{label}:{step}:exception", f"volumes after the history raised {core.errname(e)}", case))
             return False
@@ -501,11 +663,18 @@ def impl_small(case):
     k = case["kind"]
     try:
         with core.quiet():
+            rep = case.get("rep") or {}
             if k == "mikro":
-                return {"vols": [float(x) for x in MikroVoronoi(case["dims"], case["N"]).get_voronoi_volumes()]}
+                d_, n_ = DIM_REPS[rep.get("dims", "int")](case["dims"]), N_REPS[rep.get("N", "int")](case["N"])
+                mv = MikroVoronoi(dimensions=d_, N_points=n_) if rep.get("kw") else MikroVoronoi(d_, n_)
+                return {"vols": [float(x) for x in mv.get_voronoi_volumes(**flag_kw("approx", rep.get("approx", "absent"), False))]}
             if k == "dir":
-                from molgri.space.rotobj import SphereGrid3DFactory
-                g = SphereGrid3DFactory.create(case["alg"], case["N"])
+                from molgri.space.rotobj import SphereGrid3DFactory, SphereGridFactory
+                a_, n_ = STR_REPS[rep.get("alg", "str")](case["alg"]), N_REPS[rep.get("N", "int")](case["N"])
+                if rep.get("route") == "factory_dims":
+                    g = SphereGridFactory.create(a_, n_, DIM_REPS[rep.get("dims", "int")](3))
+                else:
+                    g = SphereGrid3DFactory.create(a_, n_)
                 vor = g.get_spherical_voronoi()
                 out = {"cls": type(vor).__name__, "n": int(len(g.get_grid_as_array()))}
                 if case["N"] < 4:
@@ -768,33 +937,46 @@ def jobs_for(ctx):
     seen = set()
     for f in ctx.open_findings + ctx.fixed_findings:          # corpus first
         for c in f.get("cases", []):
-            jobs.append((c["kind"], c) if c["kind"] in ("grid", "randgrid", "history") else ("small", [c]))
+            jobs.append((c["kind"], c) if c["kind"] in ("grid", "randgrid", "history", "repsweep", "repsweep1") else ("small", [c]))
             if c["kind"] == "grid":
                 seen.add((c["alg"], c["N"]))
+    rr = random.Random(f"C15-rep-{ctx.seed}")      # representation of every argument, drawn per case
     for N in tier_Ns(ctx):
         for alg in ("randomQ", "cube4D"):
             if (alg, N) not in seen:
-                jobs.append(("grid", {"kind": "grid", "alg": alg, "N": N}))
+                jobs.append(("grid", {"kind": "grid", "alg": alg, "N": N, "rep": draw_rep(rr)}))
     if ctx.quick:
         for N in quick_large(ctx):
-            jobs.append(("grid", {"kind": "grid", "alg": "randomQ", "N": N, "oracle_only": True}))
+            jobs.append(("grid", {"kind": "grid", "alg": "randomQ", "N": N, "oracle_only": True, "rep": draw_rep(rr)}))
+    # exhaustive sweep of all representation families over small fixed grids (N >= 4 and the tiny-grid branch)
+    for alg, N in ([("randomQ", 5), ("cube4D", 8), ("randomQ", 3)] if ctx.quick else
+                   [("randomQ", 5), ("cube4D", 8), ("randomQ", 3), ("cube4D", 4), ("randomQ", 12), ("cube4D", 2), ("cube4D", 17)]):
+        jobs.append(("repsweep", {"kind": "repsweep", "alg": alg, "N": N}))
     nrand = 6 if ctx.quick else 60
     for _ in range(nrand):
         N = ctx.rng.choice([4, 5, 6, 7, 9, 12] if ctx.quick else [4, 5, 6, 7, 8, 9, 11, 14, 20, 30])
-        jobs.append(("randgrid", {"kind": "randgrid", "N": N, "seed": ctx.rng.randrange(10 ** 6)}))
+        jobs.append(("randgrid", {"kind": "randgrid", "N": N, "seed": ctx.rng.randrange(10 ** 6),
+                                  "rep": {"array": rr.choice(ARRAY_REPS), "detailed": rr.choice(FLAG_REPS), "kw": rr.random() < 0.5,
+                                          "approx": rr.choice(FLAG_REPS)}}))
     kinds = ["negate", "permute", "reverse_negate", "zero"]
     for _ in range(6 if ctx.quick else 40):
         N = ctx.rng.choice([4, 5, 6, 8, 9, 12] if ctx.quick else [1, 3, 4, 5, 6, 8, 9, 12, 17, 25])
         steps = [[ctx.rng.choice(kinds[:3] if k == 0 else kinds), ctx.rng.choice(["default", "only_upper"])] for k in range(2)]
         jobs.append(("history", {"kind": "history", "alg": ctx.rng.choice(["randomQ", "cube4D"]), "N": N, "seed": ctx.rng.randrange(10 ** 6),
-                                 "order": ctx.rng.choice(["overwrite_first", "volumes_first"]), "steps": steps}))
+                                 "order": ctx.rng.choice(["overwrite_first", "volumes_first"]), "steps": steps, "rep": draw_rep(rr)}))
     small = []
     for d in (3, 4, 2, 5):
         for N in range(0, 8):
-            small.append({"kind": "mikro", "dims": d, "N": N})
+            small.append({"kind": "mikro", "dims": d, "N": N})          # plain
+            # numpy integers: N >= 1 only and no 0-d array (see REPS_LEFT_OUT)
+            small.append({"kind": "mikro", "dims": d, "N": N, "rep": {
+                "N": "int" if N == 0 else rr.choice(["np.int64", "np.int32", "np.uint16"]), "dims": rr.choice(list(DIM_REPS)),
+                "kw": rr.random() < 0.5, "approx": rr.choice(FLAG_REPS)}})
     for alg in ("ico", "cube3D", "randomS"):
         for N in range(1, 7):
-            small.append({"kind": "dir", "alg": alg, "N": N})
+            small.append({"kind": "dir", "alg": alg, "N": N, "rep": {
+                "N": rr.choice(list(N_REPS)), "alg": rr.choice(list(STR_REPS)), "route": rr.choice(["factory3", "factory_dims"]),
+                "dims": rr.choice(list(DIM_REPS))}})
     small.append({"kind": "dir", "alg": "zero3D", "N": 1})
     for _ in range(40 if ctx.quick else 400):
         small.append(gen_synth(ctx.rng))
@@ -831,6 +1013,8 @@ def run_job(job):
         elif kind == "history":
             rec.count += 1
             ev_history(rec, payload)
+        elif kind in ("repsweep", "repsweep1"):
+            ev_repsweep(rec, payload)
         else:
             ev_small_batch(rec, payload)
         if os.environ.get("C15_TIMING"):
@@ -846,6 +1030,8 @@ def weight(job):
         return p["N"] ** 2 * (3 if p["alg"] == "cube4D" else 1) * (0.5 if p.get("oracle_only") else 1)
     if kind in ("randgrid", "history"):
         return p["N"] ** 2
+    if kind in ("repsweep", "repsweep1"):
+        return 40 * p["N"] ** 2
     return 50
 
 
@@ -903,10 +1089,15 @@ def run(ctx):
     MC_USE = 1_000_000 if ctx.quick else MC_M
     jobs = jobs_for(ctx)
     ctx.extra_cov["rotation_grid_Ns"] = (tier_Ns(ctx) + [f"randomQ_{n} (oracle only)" for n in quick_large(ctx)]) if ctx.quick else "1..60, 80, 100, 120, 150, 272"
+    ctx.extra_cov["representations"] = {
+        "N": list(N_REPS), "algorithm name": list(STR_REPS), "dimensions": list(DIM_REPS), "flags (approx, only_upper, time_generation, "
+        "using_detailed_grid)": list(FLAG_REPS), "routes": list(ROUTES4) + ["SphereGrid3DFactory", "MikroVoronoi positional / keyword",
+        "HalfRotobjVoronoi positional / keyword"], "volume getters": list(GETTERS), "grid arrays": list(ARRAY_REPS),
+        "left_out": REPS_LEFT_OUT}
     ctx.extra_cov["monte_carlo"] = {"points_used": MC_USE, "sample": MC_M, "seed": MC_SEED}
     execute(ctx, jobs, parallel=True)
 
 
 def replay(ctx, cases):
-    jobs = [((c["kind"], c) if c["kind"] in ("grid", "randgrid", "history") else ("small", [c])) for c in cases]
+    jobs = [((c["kind"], c) if c["kind"] in ("grid", "randgrid", "history", "repsweep", "repsweep1") else ("small", [c])) for c in cases]
     execute(ctx, jobs, parallel=False)
